@@ -236,7 +236,15 @@ func (x *Exec) step(st *State) []*State {
 			}
 		} else {
 			a := ObjAddr{r, el}
-			st.storeAt(a, el, zeroVal(el))
+			if at, ok := el.Underlying().(*types.Array); ok && isByte(at.Elem()) {
+				// a zeroed [N]byte: N zero bytes
+				z := reg.uf("sf_zerobytes", SStr, IntLit(at.Len()))
+				st.assume(Eq(App(SInt, "str.len", z), IntLit(at.Len())))
+				st.storeAt(a, el, Sc{z})
+			} else {
+				st.storeAt(a, el, zeroVal(el))
+			}
+			x.zeroGhost(st, r)
 			f.vals[i] = PtrV{a}
 		}
 		f.pc++
@@ -892,7 +900,11 @@ func (x *Exec) slice(st *State, f *Frame, i *ssa.Slice) Val {
 			hi = IntLit(at.Len())
 		}
 		if isByte(at.Elem()) {
-			bail("slicing a byte array through a pointer")
+			cur := st.loadAt(oa, oa.Elem).(Sc).T
+			if lo.S == "0" && hi.S == IntLit(at.Len()).S {
+				return Sc{cur}
+			}
+			return Sc{App(SStr, "str.substr", cur, lo, Sub(hi, lo))}
 		}
 		if lo.S != "0" {
 			return x.copySlice(st, SliceV{oa.Ref, IntLit(0), IntLit(at.Len()), at.Elem()}, lo, Sub(hi, lo))
@@ -1462,4 +1474,21 @@ func famsSorted(m map[string]*HeapVer) []string {
 	}
 	sort.Strings(out)
 	return out
+}
+
+// zeroGhost: the ghost fields of a freshly allocated object are zero ("" / 0 / false).
+func (x *Exec) zeroGhost(st *State, r Term) {
+	for _, g := range x.eng.ghostNames() {
+		srt, _ := x.eng.ghostSort(g)
+		var z Term
+		switch srt {
+		case SInt:
+			z = IntLit(0)
+		case SBool:
+			z = TFalse
+		default:
+			z = StrLit("")
+		}
+		st.store("X|"+g, []Sort{SInt}, srt, []Term{r}, z)
+	}
 }
